@@ -134,8 +134,65 @@ def part_b(ctx, n):
           body, max(1, n // 3), label="B-deep")
 
 
+SLOT_TYPES = ["Any", "Optional[int]", "Union[int, str]",
+              "Callable[[int], str]", "Callable[..., Any]", "Literal[1]",
+              "type[int]", "tuple[()]", "tuple[int, ...]", "_T0",
+              "Annotated[int, 'property']", "list[Any]", "dict[str, Any]",
+              "Callable[[_T0], _T0]", "None", "object"]
+SLOTS = ["x: {t}", "def f(a: {t}) -> int: ...", "def f(a: int = ...) -> {t}: ...",
+         "def f(*args: {t}) -> int: ...", "def f(**kwargs: {t}) -> int: ...",
+         "def f(a, /, b: {t}) -> int: ...", "def f(*, k: {t} = ...) -> int: ...",
+         "class C:\n    a: {t}", "class C:\n    def m(self, a: {t}) -> int: ...",
+         "class C:\n    @staticmethod\n    def s(a: {t}) -> int: ...",
+         "class C:\n    @classmethod\n    def c(cls) -> {t}: ...",
+         "x: list[{t}]", "x: dict[str, {t}]", "x: tuple[{t}, int]",
+         "x: Callable[[{t}], int]", "A = {t}",
+         "@overload\ndef f(a: {t}) -> int: ...\n@overload\ndef f(a: str) -> str: ...",
+         "class C:\n    class I:\n        z: {t}"]
+
+
+def part_slots(ctx):
+  """One typing construct in exactly one slot of an otherwise minimal stub:
+  the import bookkeeping of the printer is exercised slot by slot."""
+  idx = 0
+  for t in SLOT_TYPES:
+    for slot in SLOTS:
+      idx += 1
+      if idx % ctx.nshards != ctx.shard:
+        continue
+      if slot.startswith("A = ") and t in ("None", "_T0", "Literal[1]",
+                                           "Annotated[int, 'property']"):
+        continue
+      if "Annotated" in t and "class C:\n    a:" not in slot:
+        continue
+      if t == "_T0" and ("def " not in slot or "-> _T0" in slot.format(t=t)
+                         and "(a" not in slot):
+        continue
+      body = slot.format(t=t)
+      names = [n for n in ("Any", "Optional", "Union", "Callable", "Literal",
+                           "Annotated", "overload") if n in body]
+      if "_T0" in body:
+        names.append("TypeVar")
+      head = ("from typing import %s\n" % ", ".join(sorted(set(names)))
+              if names else "")
+      if "_T0" in body:
+        head += "_T0 = TypeVar('_T0')\n"
+      T0 = head + "\n" + body + "\n"
+      case = {"kind": "B", "text": T0}
+      try:
+        ast0 = pt.parse(T0, None)
+        T = pt.Print(ast0)
+      except Exception as e:  # pylint: disable=broad-except
+        ctx.event("harness:slot-stub-rejected:" + type(e).__name__)
+        continue
+      from props import progs_c05
+      progs_c05.compare_shapes(ctx, T0, ast0, "B-slot-text", case)
+      check_text(ctx, T, "B-slot", case, canonical=True)
+
+
 def run_shard(ctx):
   boot.ensure()
+  part_slots(ctx)
   part_b(ctx, 90 if ctx.quick() else 8000)
   try:
     from props import progs_c05
